@@ -1,6 +1,7 @@
 """C10: documented .peg syntax means what the docs say; malformed text is rejected."""
 import json
 import os
+import collections
 import re
 
 from .. import common as C
@@ -381,7 +382,7 @@ def reader_stream(ctx, bd, problems):
     rc, out, err = C.run(["bash", "-c", "ulimit -s unlimited 2>/dev/null; exec " + exe], input="names\ngen %d %d\n" % (seed, n), timeout=900)
     if rc != 0:
         raise RuntimeError("the reader driver failed (rc=%s): %s" % (rc, err[-500:]))
-    names, cases, skipped, reqs = [], {}, 0, []
+    names, cases, skipped, reqs, bad = [], {}, 0, [], {}
     for line in out.split("\n"):
         if line.startswith("names "):
             names = line.split(" ")[1:]
@@ -397,6 +398,13 @@ def reader_stream(ctx, bd, problems):
             text = "".join(chr(int(x)) for x in m.group(3).split())
             cases[cid] = dict(text=text, nodes=m.group(4), run=m.group(2))
             reqs.append(dict(id="rd_" + cid, text=text, out="", inline=False, switch=False, noast=False))
+        elif line.startswith("bad "):
+            # malformed variants of a well-formed file, in the shape of the rejection theorems (Reader/Reject.v)
+            head, rest = line.split(" :: ", 1)
+            cid = head.split(" ")[1]
+            text = "".join(chr(int(x)) for x in rest[len("text="):].split())
+            bad[cid] = text
+            reqs.append(dict(id="bad_" + cid, text=text, out="", inline=False, switch=False, noast=False))
     res = B.frontdump(bd, reqs)
     ok = 0
     for cid, c in cases.items():
@@ -421,7 +429,22 @@ def reader_stream(ctx, bd, problems):
             problems.append(("the front end builds another tree than Reader/FileBridge.v's file_nodes for a file written by fshow", replay, True))
             continue
         ok += 1
-    return dict(reader_files=len(cases), reader_skipped_not_wellformed=skipped, reader_agree=ok, reader_seed=seed)
+    kinds = {"t": "a well-formed file followed by a character that starts nothing (C10_rejects_trailing_text)",
+             "r": "the head of a file with no rule behind it (C10_rejects_text_without_rules)",
+             "p": "comments and blank lines followed by something that is not the package clause (C10_rejects_text_without_package)"}
+    rejected = collections.Counter()
+    for cid, text in bad.items():
+        k = cid.rsplit("/", 1)[1]
+        r = res.get("bad_" + cid, {})
+        replay = {"text": text, "seed": seed, "case": cid, "kind": kinds.get(k, k)}
+        if r.get("panic"):
+            problems.append(("the front end panics on malformed text: " + r["panic"][:200], replay, True))
+        elif not r.get("parse_err"):
+            problems.append(("the front end accepts text that is not a grammar - %s - which the rejection theorem says the rule Grammar refuses" % kinds.get(k, k), replay, True))
+        else:
+            rejected[k] += 1
+    return dict(reader_files=len(cases), reader_skipped_not_wellformed=skipped, reader_agree=ok, reader_seed=seed,
+                malformed_variants=len(bad), malformed_rejected=dict(rejected))
 
 
 def check(ctx):
